@@ -7,6 +7,7 @@ package c07
 // inside V's persister callback against the proposal message that carried the state.
 
 import (
+	"bytes"
 	"fmt"
 	"math/big"
 	"math/rand"
@@ -44,6 +45,7 @@ type hubArena struct {
 	verdicts []verdict
 	point    string
 	kind     string
+	settled  map[channel.ID][]byte // virtual channel -> encoding of the final state of a countersigned settlement
 }
 
 func verifyAll(p *channel.Params, st *channel.State, sigs []wallet.Sig) bool {
@@ -198,7 +200,7 @@ func acceptableAtHub(params *channel.Params, vIdx channel.Index, cur, st *channe
 }
 
 func newHubArena(rng *rand.Rand) (*hubArena, string) {
-	a := &hubArena{props: map[string]tappedProp{}}
+	a := &hubArena{props: map[string]tappedProp{}, settled: map[channel.ID][]byte{}}
 	a.w = party.NewWorld(rng, 1+rng.Intn(2), rng.Intn(3))
 	a.V, a.M, a.B = a.w.NewParty("V", 100000), a.w.NewParty("M", 100000), a.w.NewParty("B", 100000)
 	a.w.Bus.AddTap(func(e *wire.Envelope) {
@@ -238,11 +240,21 @@ func newHubArena(rng *rand.Rand) (*hubArena, string) {
 		tp, known := a.props[string(gen.EncodeState(st))]
 		point, kind := a.point, a.kind
 		a.mu.Unlock()
-		if a.mvV != nil && e.ID != a.mvV.ID() {
+		if a.mvV != nil && e.ID != a.mvV.ID() && !strings.HasPrefix(kind, "both-participants") {
 			kind = "honest-proposal-of-the-other-participant"
 		}
 		ok, why := acceptableAtHub(e.Params, e.Idx, cur, st, e.Staging.Sigs[peer], tp, known)
 		a.mu.Lock()
+		if ok && tp.settlement != nil {
+			// the hub's books balance only if both parents are settled with the same final state
+			fin := tp.settlement.Final.State
+			enc := gen.EncodeState(fin)
+			if prev, seen := a.settled[fin.ID]; seen && !bytes.Equal(prev, enc) {
+				ok, why = false, "the hub countersigns the settlement of one virtual channel on its two parents with two different final states: it pays out more than the channel held"
+			} else {
+				a.settled[fin.ID] = enc
+			}
+		}
 		a.verdicts = append(a.verdicts, verdict{ok, why, cur, st, int(tp.actor), point, kind})
 		a.mu.Unlock()
 	}
@@ -313,6 +325,49 @@ func (a *hubArena) rewriteVirtual(settlement bool, edit func(orig *channel.State
 		return []*wire.Envelope{e}
 	})
 	return func() bool { mu.Lock(); defer mu.Unlock(); return fired }
+}
+
+// colludeSettlement: both participants of the virtual channel are adversarial. Each sends a
+// settlement proposal with its own "final" state of the same version that pays everything to
+// itself, fully signed by both (the harness holds both keys), with a parent state to match.
+func (a *hubArena) colludeSettlement(curM, curB *channel.State) func() int {
+	var mu sync.Mutex
+	fired := 0
+	mk := func(p *party.Party, self int, cur *channel.State) {
+		a.w.Bus.SetRewriter(p.Wire, func(e *wire.Envelope) []*wire.Envelope {
+			m, ok := e.Msg.(*client.VirtualChannelSettlementProposalMsg)
+			if !ok || m.State == nil || m.Final.State == nil {
+				return []*wire.Envelope{e}
+			}
+			fin := m.Final.State.Clone()
+			tot := fin.Allocation.Sum()
+			ns := m.State.Clone()
+			for ai := range fin.Balances {
+				for j := range fin.Balances[ai] {
+					fin.Balances[ai][j] = big.NewInt(0)
+				}
+				fin.Balances[ai][self] = new(big.Int).Set(tot[ai])
+				// parent: the sender (participant 0) is credited everything, the hub nothing
+				ns.Balances[ai][0] = new(big.Int).Add(cur.Balances[ai][0], tot[ai])
+				ns.Balances[ai][1] = new(big.Int).Set(cur.Balances[ai][1])
+			}
+			s0, e0 := channel.Sign(a.M.Acc, fin, gen.B)
+			s1, e1 := channel.Sign(a.B.Acc, fin, gen.B)
+			sig, e2 := channel.Sign(p.Acc, ns, gen.B)
+			if e0 != nil || e1 != nil || e2 != nil {
+				return []*wire.Envelope{e}
+			}
+			mu.Lock()
+			fired++
+			mu.Unlock()
+			return []*wire.Envelope{{Sender: e.Sender, Recipient: e.Recipient, Msg: &client.VirtualChannelSettlementProposalMsg{
+				ChannelUpdateMsg: client.ChannelUpdateMsg{ChannelUpdate: client.ChannelUpdate{State: ns, ActorIdx: m.ActorIdx}, Sig: sig},
+				Final:            channel.SignedState{Params: m.Final.Params, State: fin, Sigs: []wallet.Sig{s0, s1}}}}}
+		})
+	}
+	mk(a.M, 0, curM)
+	mk(a.B, 1, curB)
+	return func() int { mu.Lock(); defer mu.Unlock(); return fired }
 }
 
 // hub edits: M is participant 0 of the parent, the hub V participant 1.
@@ -620,8 +675,33 @@ func hubHistory(s sink.Sink, em *childrun.Emitter, rng *rand.Rand, sample bool) 
 		s.Inconclusive("hub arena: final update failed: " + err.Error())
 		return n
 	}
-	se := hubSettleEdits[rng.Intn(len(hubSettleEdits))]
 	point = "virtual-channel-settlement"
+	if rng.Intn(12) == 0 {
+		// both participants collude (each case costs the hub's matching wait of 10 s)
+		name := "both-participants-settle-with-their-own-final-state-of-the-same-version"
+		a.setCase(point, name)
+		em.Progress(point + " " + name)
+		fired := a.colludeSettlement(a.mvV.State(), a.bvV.State())
+		a.M.Timeout, a.B.Timeout = 13*time.Second, 13*time.Second
+		errs := make(chan error, 2)
+		go func() { ctx, c := a.M.Ctx(); defer c(); errs <- vch.Settle(ctx, false) }()
+		go func() { ctx, c := a.B.Ctx(); defer c(); errs <- virtB.Settle(ctx, false) }()
+		<-errs
+		<-errs
+		a.w.Bus.SetRewriter(a.M.Wire, nil)
+		a.w.Bus.SetRewriter(a.B.Wire, nil)
+		if fired() == 2 {
+			n++
+			s.Case(point+"|"+name, true)
+			s.Seen("crafted_kinds", "virtual-settlement/"+name)
+			s.Seen("life_points", point)
+			report()
+		} else {
+			s.Count("colluding_settlements_not_sent", 1)
+		}
+		return n
+	}
+	se := hubSettleEdits[rng.Intn(len(hubSettleEdits))]
 	a.setCase(point, se.name)
 	em.Progress(point + " " + se.name)
 	cur = a.mvV.State()
